@@ -27,6 +27,36 @@ theorem streaming_new (b : Backend) (k : V4) (h : Hasher) (hh : Hasher.new b k =
     (chunks.foldl Hasher.append h).finalize w = (h.append chunks.flatten).finalize w :=
   streaming h (Hasher.new_abs b k h hh).2 chunks w
 
+/-- one cut at ANY position (0, inside a packet, exactly on a packet boundary, beyond the end) -/
+theorem split_anywhere (h : Hasher) (hi : h.Inv) (d : List (BitVec 8)) (n : Nat) (w : Width) :
+    ((h.append (d.take n)).append (d.drop n)).finalize w = (h.append d).finalize w := by
+  have := streaming2 h hi [d.take n, d.drop n] [d] (by simp) w
+  simpa using this
+
+theorem flatten_filter_nonempty (chunks : List (List (BitVec 8))) :
+    (chunks.filter (fun c => !c.isEmpty)).flatten = chunks.flatten := by
+  induction chunks with
+  | nil => rfl
+  | cons c cs ih =>
+    cases c with
+    | nil => simpa using ih
+    | cons x xs => simp [ih]
+
+/-- empty chunks anywhere in a history are irrelevant -/
+theorem empty_chunks_irrelevant (h : Hasher) (hi : h.Inv) (chunks : List (List (BitVec 8))) (w : Width) :
+    (chunks.foldl Hasher.append h).finalize w = ((chunks.filter (fun c => !c.isEmpty)).foldl Hasher.append h).finalize w :=
+  streaming2 h hi _ _ (flatten_filter_nonempty chunks).symm w
+
+/-- byte-at-a-time feeding equals one append -/
+theorem bytewise (h : Hasher) (hi : h.Inv) (d : List (BitVec 8)) (w : Width) :
+    ((d.map (fun x => [x])).foldl Hasher.append h).finalize w = (h.append d).finalize w := by
+  have e : (d.map (fun x => [x])).flatten = d := by
+    induction d with
+    | nil => rfl
+    | cons x xs ih => simp [ih]
+  have := streaming2 h hi (d.map (fun x => [x])) [d] (by simp [e]) w
+  simpa using this
+
 /-- an empty append never changes anything observable -/
 theorem empty_append (h : Hasher) (hi : h.Inv) :
     (h.append []).abs = h.abs ∧ (h.append []).checkpoint = h.checkpoint ∧ ∀ w, (h.append []).finalize w = h.finalize w := by
